@@ -36,6 +36,19 @@ fn main() {
             }
             println!("; frag={:?} n_peers={}\n{}", frag, g.n_peers, air);
         }
+        Some("leak") => {
+            // vcheck leak <n>: run n honest cases on this thread and print the live heap bytes (diagnostic)
+            use vharness::mon::honest::*;
+            let n: u64 = args.get(2).and_then(|s| s.parse().ok()).unwrap_or(2000);
+            let cfg = Cfg { seed: 1, thorough: true, only_case: None, threads: 1 };
+            for case in 0..n {
+                let c = build_case(&cfg, 4, case, &[Frag::Seq, Frag::Stream]);
+                drop(c);
+                if case % 250 == 0 {
+                    println!("case {case} live_bytes {}", vharness::alloc::LIVE.load(std::sync::atomic::Ordering::Relaxed));
+                }
+            }
+        }
         Some("play") => {
             // vcheck play <air-file> <n_peers> <seed> : run one random history of a hand-written script and print it
             let air = std::fs::read_to_string(&args[2]).expect("air file");
